@@ -124,11 +124,40 @@ def mk_pw(cases) -> Any:
                 break
         else:
             merged.append((g, v))
+    if len(merged) >= 2:
+        merged = _absorb(merged)
     if not merged:
         return Obj("undefined")
     if len(merged) == 1:
         return merged[0][1]
     return PW(merged)
+
+
+def _absorb(merged):
+    """A case taken under an equality (`if m == 0: return b`) whose value is what another case's value becomes under
+    that equality (`b + m*x` with m = 0) is that other case: a special-cased path that computes the general formula."""
+    from .guards import equalities_of
+    out = list(merged)
+    i = 0
+    while i < len(out):
+        g, v = out[i]
+        done = False
+        if isinstance(v, Rat) and g.kind in ("sign", "and"):
+            eqs = equalities_of(g)
+            if eqs:
+                try:
+                    vi = anf.replace_atoms(v, eqs)
+                    for j, (g2, v2) in enumerate(out):
+                        if j != i and isinstance(v2, Rat) and anf.replace_atoms(v2, eqs).equals(vi):
+                            out[j] = (g_or(g2, g), v2)
+                            del out[i]
+                            done = True
+                            break
+                except ZeroDivisionError:
+                    pass
+        if not done:
+            i += 1
+    return out
 
 
 def cases_of(v) -> List[Tuple[G, Any]]:
@@ -207,6 +236,7 @@ class Evaluator:
         self.bool_registry: Dict[str, G] = {}        # boolean masks that were turned into opaque index atoms
         self.summarise_loops = True                  # exact loop summaries (seqdom) instead of havoc where possible
         self.gen_depth = 0
+        self.range_registry: Dict[Any, Any] = {}
         self.summary_log: List[Tuple[int, str]] = []
         self.summary_assumptions: set = set()
         self.gen_registry: Dict[str, Any] = {}
@@ -345,6 +375,9 @@ class Evaluator:
                     return base_len.add(b)
                 return b
             return bound(a.args[2], base_len).sub(bound(a.args[1], Rat.const(0)))
+        if a.name == "rslice":
+            first, stop = rslice_bounds(a, self.length_of(a.args[0]))
+            return first.sub(stop)
         if a.name in self.ELEMENTWISE:
             lens = [self.length_of(x) for x in a.args if x.is_array()]
             if lens and all(lens[0].equals(l) for l in lens[1:]):
@@ -1118,6 +1151,8 @@ class Frame:
                 if -len(base.items) <= ci < len(base.items):
                     return base.items[ci]
                 raise Unsupported("constant index out of range")
+            if isinstance(sl, ast.Slice) and sl.step is not None:
+                return self._stepped(ev.to_rat(base), sl, env)
             if isinstance(sl, ast.Slice) and sl.step is None:
                 lo = self._const_index(sl.lower, env) if sl.lower is not None else 0
                 hi = self._const_index(sl.upper, env) if sl.upper is not None else len(base.items)
@@ -1146,8 +1181,7 @@ class Frame:
         r = ev.to_rat(base)
         if isinstance(sl, ast.Slice):
             if sl.step is not None:
-                st = self.expr(sl.step, env)
-                return anf.opaque("stepslice", r, ev.to_rat(st), array=True)
+                return self._stepped(r, sl, env)
             lo = self.expr(sl.lower, env) if sl.lower is not None else NONE
             hi = self.expr(sl.upper, env) if sl.upper is not None else NONE
             return self._slice(r, lo, hi)
@@ -1209,6 +1243,20 @@ class Frame:
                 return anf.opaque("at", arr, idx, array=False)
         return arr.subst(mapping)
 
+    def _stepped(self, r: Rat, sl: ast.Slice, env) -> Rat:
+        ev = self.ev
+        st = ev.to_rat(self.expr(sl.step, env))
+
+        def bnd(n_):
+            if n_ is None:
+                return sym("None")
+            v_ = self.expr(n_, env)
+            return sym("None") if isinstance(v_, Obj) and v_.tag == "none" else ev.to_rat(v_)
+        if st.is_const() == -1:
+            # x[s:e:-1]: the positions s, s-1, .., e+1 (s defaults to the last position, e to "through position 0")
+            return anf.opaque("rslice", r, bnd(sl.lower), bnd(sl.upper), array=True)
+        return anf.opaque("stepslice", r, bnd(sl.lower), bnd(sl.upper), st, array=True)
+
     def _slice(self, arr: Rat, lo, hi) -> Rat:
         def k(v):
             if isinstance(v, Obj) and v.tag == "none":
@@ -1223,6 +1271,19 @@ class Frame:
     def call(self, e: ast.Call, env, guard: G, stmt):
         from .npmodel import dispatch_call
         return dispatch_call(self, e, env, self.cur_guard, stmt)
+
+
+def rslice_bounds(a: Atom, base_len: Rat):
+    """(first, stop) of x[s:e:-1] as plain positions: the view holds x[first], x[first-1], .., x[stop+1]
+    (valid for in-range bounds)."""
+    def bound(b, default):
+        if b.symbols() == {"None"}:
+            return default
+        c = b.is_const()
+        if c is not None and c < 0:
+            return base_len.add(b)
+        return b
+    return bound(a.args[1], base_len.sub(Rat.const(1))), bound(a.args[2], Rat.const(-1))
 
 
 def _disp(v) -> str:
